@@ -134,7 +134,7 @@ theorem presU_parse : ∀ fuel,
           split
           · exact pres_pure _
           · split
-            · exact pres_attempt (ihIn _ _)
+            · exact pres_attemptLoad _ (ihIn _ _)
             · exact pres_pure _
       · unfold circularCheck
         apply pres_getBind
@@ -150,8 +150,16 @@ theorem untouched_revert {s₀ s1 : Ctx}
   obtain ⟨h1, h2, _⟩ := h
   rw [revert_eq]
   simp only [h2, List.isEmpty_nil, if_true]
-  unfold revertCore removeCreated
+  unfold revertCore
   simp only [h2, List.foldl_nil]
-  exact h1
+  obtain ⟨g, hg, e⟩ := fixLatest_spec s1 (removeCreated s1)
+  rw [e]
+  show ((removeCreated s1).mods.map g).map (fun m => (m.key, m.compiled)) = _
+  rw [List.map_map]
+  rw [← h1]
+  unfold removeCreated
+  apply List.map_congr_left
+  intro m _
+  simp only [Function.comp, (hg m).key, (hg m).compiled]
 
 end LyModel.Ctx
